@@ -233,3 +233,32 @@ pub fn dump_db(db: &Db, uni: &Universe<'_>) -> Facts {
     };
     dump_snapshot(&snap, uni)
 }
+
+/// Index view: for every (label, field) index the harness created and every candidate value,
+/// what `lookup_index` returns (sorted ids). Absent = `None`.
+pub fn index_facts(
+    snap: &DbSnapshot,
+    indexes: &[(String, String)],
+    values: &[nervusdb_api::PropertyValue],
+) -> Facts {
+    let mut f = Facts::new();
+    for (label, field) in indexes {
+        for v in values {
+            let r = catch_unwind(AssertUnwindSafe(|| snap.lookup_index(label, field, v)));
+            match r {
+                Ok(Some(mut ids)) => {
+                    ids.sort();
+                    f.insert(
+                        format!("x/{label}/{field}/{}", canon(v)),
+                        ids.iter().map(|i| i.to_string()).collect::<Vec<_>>().join(","),
+                    );
+                }
+                Ok(None) => {}
+                Err(p) => {
+                    f.insert(format!("!panic/index/{label}/{field}"), panic_msg(&p));
+                }
+            }
+        }
+    }
+    f
+}
